@@ -1,11 +1,19 @@
 package event
 
+import "sync"
+
 type EventFn[T any] func(data T)
 
 type Unsubscribe func()
 
+type subscription[T any] struct {
+	fn EventFn[T]
+}
+
+// An Event must not be copied after first use. Share it through a pointer.
 type Event[T any] struct {
-	subscribers []EventFn[T]
+	mu          sync.Mutex
+	subscribers []*subscription[T]
 }
 
 func New[T any]() *Event[T] {
@@ -13,11 +21,25 @@ func New[T any]() *Event[T] {
 }
 
 // Adds a subscriber to the event.
+// The returned function removes exactly this subscriber, no matter how many other
+// subscribers were added or removed in the meantime. Calling it more than once is harmless.
 func (e *Event[T]) Subscribe(fn EventFn[T]) Unsubscribe {
-	index := len(e.subscribers)
-	e.subscribers = append(e.subscribers, fn)
+	sub := &subscription[T]{fn: fn}
+
+	e.mu.Lock()
+	e.subscribers = append(e.subscribers, sub)
+	e.mu.Unlock()
+
 	return func() {
-		e.subscribers = append(e.subscribers[:index], e.subscribers[index+1:]...)
+		e.mu.Lock()
+		defer e.mu.Unlock()
+
+		for i, s := range e.subscribers {
+			if s == sub {
+				e.subscribers = append(e.subscribers[:i], e.subscribers[i+1:]...)
+				return
+			}
+		}
 	}
 }
 
@@ -25,7 +47,10 @@ func (e *Event[T]) Subscribe(fn EventFn[T]) Unsubscribe {
 // NOTE: The subscribers are notified in separate goroutines,
 // so be aware of potential race conditions.
 func (e *Event[T]) Fire(data T) {
-	for _, subscriber := range e.subscribers {
-		go subscriber(data)
+	e.mu.Lock()
+	defer e.mu.Unlock()
+
+	for _, sub := range e.subscribers {
+		go sub.fn(data)
 	}
 }
